@@ -173,6 +173,19 @@ def handwritten() -> List[dict]:
     out.append(mk({"N0": 2}, {"S": ([], N), "a": ([], T), "b": ([], T)}, "S",
                   [("S", [], [("S", []), ("S", []), ("b", [])], []), ("S", [], [("a", [])], [])],
                   {"a": 0.2, "b": 0.6}, {"family": "nonlinear-start"}))
+    # matrix-valued recursion with sparse (triangular) support and an internal node attached to no edge:
+    # X(i,j) -> a(i,j) | X(i,k) t(k,j) [+ isolated node]   and   X(i,j) -> a(i,j) | X(i,k) X(k,j) [+ isolated node]
+    tri_a = [[0.1, 0.0, 0.0], [0.0, 0.1, 0.0], [0.0, 0.0, 0.1]]
+    tri_t = [[0.1, 0.2, 0.0], [0.0, 0.1, 0.2], [0.0, 0.0, 0.1]]
+    tri_a2 = [[0.0, 0.1, 0.0], [0.0, 0.0, 0.1], [0.0, 0.0, 0.0]]
+    out.append(mk({"N0": 3}, {"X": (["N0", "N0"], N), "a": (["N0", "N0"], T), "t": (["N0", "N0"], T)}, "X",
+                  [("X", ["N0", "N0"], [("a", [0, 1])], [0, 1]),
+                   ("X", ["N0", "N0", "N0", "N0"], [("X", [0, 1]), ("t", [1, 2])], [0, 2])],
+                  {"a": tri_a, "t": tri_t}, {"family": "triangular-matrix-recursion-edgeless-internal-linear"}))
+    out.append(mk({"N0": 3}, {"X": (["N0", "N0"], N), "a": (["N0", "N0"], T)}, "X",
+                  [("X", ["N0", "N0"], [("a", [0, 1])], [0, 1]),
+                   ("X", ["N0", "N0", "N0", "N0"], [("X", [0, 1]), ("X", [1, 2])], [0, 2])],
+                  {"a": tri_a2}, {"family": "triangular-matrix-recursion-edgeless-internal-nonlinear"}))
     # a zero-valued nonterminal whose entry appears only after the other values have stopped changing
     out.append(mk({"N0": 2}, {"S": ([], N), "X": ([], N), "a": ([], T), "b": ([], T)}, "S",
                   [("S", [], [("X", []), ("a", [])], []), ("X", [], [("b", [])], []), ("X", [], [("S", []), ("X", [])], [])],
